@@ -125,10 +125,13 @@ def _uf(name, width, arity=2):
     return z3.Function(f"uf!{name}!{width}", *([bv] * arity + [bv]))
 
 
-def uf_abstract(exprs):
-    """returns (abstracted expressions, number of abstracted applications)"""
+def uf_abstract(exprs, axioms=None):
+    """returns (abstracted expressions, number of abstracted applications); instances of the commutativity
+    of the multiplication function for the abstracted products are appended to `axioms` (a list)"""
     memo = {}
     count = [0]
+    if axioms is None:
+        axioms = []
 
     def build(e, ch):
         k = e.decl().kind()
@@ -144,6 +147,7 @@ def uf_abstract(exprs):
                     f = _uf("mul", e.size())
                     r = rest[0]
                     for c in rest[1:]:
+                        axioms.append(f(r, c) == f(c, r))
                         r = f(r, c)
                     for c in consts:
                         r = c * r
@@ -176,17 +180,32 @@ def uf_abstract(exprs):
 def prove_uf_abstracted(pc, c, timeout_ms):
     """'unsat' (pc => c holds for every interpretation of the abstracted operators, hence for the real
     ones) | 'skip' (nothing to abstract) | 'unknown'"""
+    axioms = []
     try:
-        exprs, n = uf_abstract([z3.simplify(f) for f in pc] + [c])
-    except z3.Z3Exception:
+        exprs, n = uf_abstract([z3.simplify(f) for f in pc] + [c], axioms)
+    except Exception:
         return "unknown"
     if n == 0:
         return "skip"
     s = z3.Solver()
     s.set("timeout", timeout_ms)
     s.add(*exprs[:-1])
+    s.add(*axioms)
     s.add(z3.Not(exprs[-1]))
     return "unsat" if s.check() == z3.unsat else "unknown"
+
+
+_INT = None
+
+
+def check_int(pc, extra, timeout_ms):
+    """pc and extra through the exact linear-integer translation (_IntContext): (z3 result, model or None);
+    z3.unknown also when some operator is outside the linear fragment"""
+    global _INT
+    if _INT is None or _INT.timeout_ms != timeout_ms:
+        _INT = _IntContext(timeout_ms)
+    v, m = _INT.prove(list(pc), z3.Not(z3.And(*extra)) if extra else z3.BoolVal(False))
+    return {"unsat": z3.unsat, "sat": z3.sat}.get(v, z3.unknown), m
 
 
 def check_fresh(constraints, timeout_ms):
@@ -200,15 +219,17 @@ def check_fresh(constraints, timeout_ms):
 
 def uf_unsat(constraints, timeout_ms):
     """True if the conjunction is unsatisfiable already with * / % abstracted to uninterpreted functions"""
+    axioms = []
     try:
-        exprs, n = uf_abstract([z3.simplify(f) for f in constraints])
-    except z3.Z3Exception:
+        exprs, n = uf_abstract([z3.simplify(f) for f in constraints], axioms)
+    except Exception:
         return False
     if n == 0:
         return False
     s = z3.Solver()
     s.set("timeout", timeout_ms)
     s.add(*exprs)
+    s.add(*axioms)
     return s.check() == z3.unsat
 
 
@@ -355,6 +376,12 @@ class _IntContext:
                 return (tr(ch[0]) * (1 << ch[1].as_long()) + half) % full - half
             if d == z3.Z3_OP_ITE:
                 return z3.If(tr(ch[0]), tr(ch[1]), tr(ch[2]))
+            if d == z3.Z3_OP_EXTRACT and e.params()[1] == 0:
+                # low bits of x, read as a signed number: x reduced into [-2**(W-1), 2**(W-1))
+                half, full = 1 << (W - 1), 1 << W
+                return (tr(ch[0]) + half) % full - half
+            if d == z3.Z3_OP_SIGN_EXT:
+                return tr(ch[0])
             raise _Unsupported(str(e.decl()))
         if z3.is_bool(e):
             if z3.is_true(e) or z3.is_false(e):
